@@ -109,7 +109,7 @@ impl EncCfg {
                 Win::Tukey(2000),
                 Win::Tukey(i32::MIN),
             ]),
-            padding: *rng.pick(&[Pad::Default, Pad::None, Pad::Size(0), Pad::Size(1), Pad::Size(17), Pad::Size(18), Pad::Size(200), Pad::Size(65536)]),
+            padding: *rng.pick(&[Pad::Default, Pad::None, Pad::Size(0), Pad::Size(1), Pad::Size(17), Pad::Size(18), Pad::Size(22), Pad::Size(40), Pad::Size(58), Pad::Size(200), Pad::Size(65536)]),
             seek: *rng.pick(&[SeekPol::Default, SeekPol::Off, SeekPol::Frames(1), SeekPol::Frames(2), SeekPol::Frames(7), SeekPol::Seconds(1), SeekPol::Seconds(10), SeekPol::Seconds(255)]),
             declare_total: rng.chance(1, 2),
             extras: if rng.chance(1, 3) { rng.below(64) as u8 } else { 0 },
@@ -419,6 +419,8 @@ impl Decode {
 }
 
 fn meta_of<M: Metadata>(m: &M) -> Meta {
+    // the derived accessors are part of what a reader offers on any stream it opened
+    std::hint::black_box((m.channel_mask(), m.decoded_len(), m.duration()));
     Meta { channels: m.channel_count(), bps: m.bits_per_sample(), rate: m.sample_rate(), total: m.total_samples(), md5: m.md5().copied() }
 }
 
